@@ -23,8 +23,35 @@ pub fn params(tier: Tier, quarantined: bool) -> LitmusParams {
 pub fn build(prop: &str, draws: &[u16], tier: Tier) -> Case {
     let mut s = Src::new(draws);
     // stream selection: 0..=5 main stream (shape / free-form), 6 quarantined (known-defect classes)
-    let sel = s.pick(9);
+    let sel = s.pick(10);
     let (family, prog) = match sel {
+        // (C03 only: the may-direction does not mind that loom forgets stores) main stores to the
+        // flag location 5-8 times before spawning, so that the 7-entry store history of the location
+        // wraps around while the threads run
+        9 if prop == "C03" => ("long-history", {
+            let lp = params(tier, false);
+            let mut p = if s.chance(2, 3) { gen::litmus_chain(&mut s, &lp) } else { gen::litmus_shape(&mut s, &lp) };
+            let events = |p: &Program| p.count(|_| true) + p.n_atomics();
+            if events(&p) > 22 {
+                // R-AX handles 32 events: fall back to a small message-passing base
+                let f = s.of(&[MO::Acq, MO::AcqRel, MO::Sc]);
+                p = Program {
+                    threads: vec![
+                        vec![Op::Spawn { t: 1 }, Op::Spawn { t: 2 }],
+                        vec![Op::Store { a: 1, v: 1, o: MO::Rlx }, Op::Store { a: 0, v: 1, o: s.of(&[MO::Rel, MO::Sc]) }, Op::Store { a: 0, v: 2, o: MO::Rlx }],
+                        vec![Op::Load { a: 0, o: MO::Rlx }, Op::Fence { o: f }, Op::Load { a: 1, o: MO::Rlx }],
+                    ],
+                    rx_owner: 0,
+                    arc_owner: vec![],
+                };
+            }
+            let k = s.range(5, 8).min(30 - events(&p));
+            let a = if s.chance(3, 4) { 0 } else { 1 };
+            for i in 0..k {
+                p.threads[0].insert(i, Op::Store { a, v: 10 + i as u8, o: if s.chance(1, 4) { MO::Rel } else { MO::Rlx } });
+            }
+            p
+        }),
         // all-SeqCst programs without fences: here the two references (R-SC interleavings and R-AX in its
         // strongest reading) must coincide - a cross-check of the oracles themselves
         8 => ("sc-only", {
@@ -74,7 +101,29 @@ fn set_str(s: &BTreeSet<Outcome>) -> Vec<String> {
 
 /// Shared evaluation; `must` selects C02 (A ⊆ L) vs C03 (L ⊆ U).
 pub fn eval(case: &Case, must: bool) -> Verdict {
-    let p = &case.prog;
+    let pfull = &case.prog;
+    // long-history programs: of the stores main performs before it spawns anything only the last one
+    // per location can be read by anybody (the others are overwritten in happens-before order), so
+    // the reference is computed for the program without them
+    let reduced: Program;
+    let p = if case.family == "long-history" {
+        let mut q = pfull.clone();
+        let first_spawn = q.threads[0].iter().position(|o| matches!(o, Op::Spawn { .. })).unwrap_or(0);
+        let mut keep: Vec<bool> = vec![true; q.threads[0].len()];
+        for i in 0..first_spawn {
+            if let Op::Store { a, .. } = q.threads[0][i] {
+                if q.threads[0][i + 1..first_spawn].iter().any(|o| matches!(o, Op::Store { a: b, .. } if *b == a)) {
+                    keep[i] = false;
+                }
+            }
+        }
+        let mut k = keep.iter();
+        q.threads[0].retain(|_| *k.next().unwrap());
+        reduced = q;
+        &reduced
+    } else {
+        pfull
+    };
     let mut v = Verdict::pass();
     if let Err(e) = p.well_formed() {
         return Verdict::skip(&format!("ill-formed: {}", e));
@@ -91,7 +140,7 @@ pub fn eval(case: &Case, must: bool) -> Verdict {
     if !br.a.outcomes.is_subset(&br.u.outcomes) {
         return Verdict::skip("ORACLE-BUG: A not subset of U");
     }
-    let run = interp::collect(p, &case.cfg, false);
+    let run = interp::collect(pfull, &case.cfg, false);
     v.loom_iters = run.report.iters as u64;
     if run.report.capped {
         return Verdict::skip("capped");
